@@ -157,6 +157,10 @@ impl LockStep {
         if what.starts_with("hidden state: alternate screen") {
             return p == "C16";
         }
+        if p == "C08" && what.contains("blank cell has pen") {
+            // "every cell ... blanked afterwards reports exactly that pen"
+            return true;
+        }
         if p == "C08" && matches!(cmd, Text(_) | El(_) | Cr) {
             // "every cell printed or blanked afterwards reports exactly that pen"
             return true;
